@@ -89,6 +89,33 @@ fn input_of(parser: &str, idx: usize, seed: u64, budget: usize) -> (Vec<u8>, Str
             (format!("{{\"@id\":\"http://ex/{}\",\"http://ex/p\":\"{}\"}}", "a".repeat(*n * 10), "\\n".repeat(*n * 5)), format!("tokens of {} characters", n * 10)),
         ]).collect(),
     };
+    // aimed documents: places where a parser glues, resolves or reports strings
+    let mut stress = stress;
+    match parser {
+        "turtle" | "trig" | "gtrig" => {
+            for (pre, local) in [("x://h:8", "a"), ("x://h:", "80a"), ("http://[::1", "]/x"), ("http://ex/%4", "g"), ("http://ex/%", "41"), ("x:", "//[z"), ("http://a/", "\\u0020"), ("http://a/#", "b#c")] {
+                stress.push((format!("@prefix p: <{pre}> .\n<x:s> <x:p> p:{local} .\np:{local} <x:p> <x:o> .\n"), format!("prefix <{pre}> glued to local name {local}")));
+            }
+            for iri in ["a b", " ", "http://ex/a b", "x:\u{9}y", "{}", "a|b", "^", "`"] {
+                stress.push((format!("<{iri}> <{iri}> <{iri}> .\n"), format!("IRI reference <{iri}> with characters outside the IRI grammar")));
+            }
+        }
+        "nt" | "nq" | "gnq" => {
+            for iri in ["a b", " ", "http://ex/a b", "{}", "a|b"] {
+                stress.push((format!("<{iri}> <{iri}> <{iri}> .\n"), format!("IRI reference <{iri}> with characters outside the IRI grammar")));
+            }
+        }
+        "xml" => {}
+        _ => {
+            for base in ["http://[V1.a]/", "http://[v1.a]/", "x://h:8a/", "http://a b/", "relative/base", "http://ex/%zz"] {
+                stress.push((format!("{{\"@context\":{{\"@base\":\"{base}\"}},\"@id\":\"x\",\"http://ex/p\":{{\"@id\":\"y\"}}}}"), format!("@base {base}")));
+            }
+            // error messages that quote a long string with multi-byte characters at every offset (a remote context is refused)
+            for k in 0..90usize {
+                stress.push((format!("{{\"@context\":\"http://ex/{}{}\",\"@id\":\"http://ex/s\"}}", "a".repeat(k), "\u{e9}\u{1F600}".repeat(60)), format!("remote context with a long non-ASCII IRI (offset {k})")));
+            }
+        }
+    }
     if k < stress.len() {
         let (s, d) = stress[k].clone();
         return (s.into_bytes(), d);
